@@ -77,7 +77,23 @@ def build(irv, shadow=False):
     if shadow:
         # values of the branches carry names of main-graph values that their graph never uses (legal shadowing)
         i0.outputs[0].name, i1.outputs[0].name, e0.outputs[0].name = "t3", "b", "t2"
-    return ir.Model(g, ir_version=irv)
+    model = ir.Model(g, ir_version=irv)
+    # a model-local function whose body holds control flow: annotated nodes may sit two levels below the function
+    fx = ir.Value(name="fx", type=F, shape=ir.Shape([2, 3, 4]))
+    fc = ir.Value(name="fc", type=ir.TensorType(ir.DataType.BOOL), shape=ir.Shape([]))
+    f0 = ir.Node("", "Relu", [fx], num_outputs=1, name="f_relu")
+    f0.outputs[0].name, f0.outputs[0].type, f0.outputs[0].shape = "ft0", F, ir.Shape([2, 3, 4])
+    ft = ir.Node("", "Neg", [f0.outputs[0]], num_outputs=1, name="f_then_neg")
+    ft.outputs[0].name, ft.outputs[0].type, ft.outputs[0].shape = "ft1", F, ir.Shape([2, 3, 4])
+    fe = ir.Node("", "Abs", [fx], num_outputs=1, name="f_else_abs")
+    fe.outputs[0].name, fe.outputs[0].type, fe.outputs[0].shape = "ft2", F, ir.Shape([2, 3, 4])
+    fif = ir.Node("", "If", [fc], [ir.AttrGraph("then_branch", ir.Graph([], [ft.outputs[0]], nodes=[ft], name="f_then")),
+                                    ir.AttrGraph("else_branch", ir.Graph([], [fe.outputs[0]], nodes=[fe], name="f_else"))], num_outputs=1, name="f_if")
+    fif.outputs[0].name = "fy"
+    fgraph = ir.Graph([fx, fc], [fif.outputs[0]], nodes=[f0, fif], name="fn_body", opset_imports={"": 20})
+    fn = ir.Function("local", "fn", graph=fgraph, attributes=[])
+    model.functions[fn.identifier()] = fn
+    return model
 
 
 class State:
@@ -92,7 +108,15 @@ class State:
         self.shadowing = bool(shadow)
 
     def nodes(self):
-        return list(self.model.graph.all_nodes())  # incl. the nodes inside the If branches
+        # incl. the nodes inside the If branches and the nodes of function bodies (at any depth)
+        return list(self.model.graph.all_nodes()) + [n for f in self.model.functions.values() for n in f.all_nodes()]
+
+    def root_of(self, node):
+        """The top-level graph (main graph or a function body) below which `node` lives."""
+        for f in self.model.functions.values():
+            if any(node is n for n in f.all_nodes()):
+                return f.graph
+        return self.model.graph
 
     def fail(self, bucket, msg):
         if len(self.fails) < 3:
@@ -109,7 +133,7 @@ def check_state(st, tag):
 
     m = st.model
     regs = list(m.device_configurations)
-    all_nodes = list(m.graph.all_nodes())
+    all_nodes = list(m.graph.all_nodes()) + [n for f in m.functions.values() for n in f.all_nodes()]
     for n in all_nodes:
         ios = io_of(n)
         for dc in n.device_configurations or ():
@@ -130,7 +154,10 @@ def check_state(st, tag):
     except Exception as e:
         st.fail(f"to_proto-raised/{type(e).__name__}", f"after {tag}: to_proto raised {type(e).__name__}: {e}"[:300])
         return
-    for n, np_ in _node_pairs(m.graph, p.graph):
+    pairs = list(_node_pairs(m.graph, p.graph))
+    for f_, fp_ in zip(m.functions.values(), p.functions):
+        pairs.extend(_node_pairs(f_, fp_))
+    for n, np_ in pairs:
         dcs = list(n.device_configurations or ())
         if len(dcs) != len(np_.device_configurations):
             st.fail("serialized-configuration-count", f"after {tag}: node {n.name} has {len(dcs)} configurations, proto has {len(np_.device_configurations)}")
@@ -182,6 +209,8 @@ def _shadow_candidates(m, n, v):
     g = n.graph
     if g is None or g is m.graph or not any(v is o for o in n.outputs):
         return []
+    if not any(n is x for x in m.graph.all_nodes()):
+        return []  # (a node of a function body: another top-level scope)
     used = set()
     for nn in m.graph.all_nodes():
         if nn.graph is not m.graph:  # any nested node: keep it simple and exclude what any nested graph captures
@@ -367,9 +396,10 @@ def run_op(st, op):
     if k == 6 and n.inputs:  # replace input
         i = b % len(n.inputs)
         old = n.inputs[i]
-        pool = [x for nn in m.graph for x in nn.outputs if nn is not n] + list(m.graph.inputs)  # main-graph values: visible everywhere
-        if n.graph is not m.graph:
-            pool = _unshadowed(m, pool)
+        root = st.root_of(n)
+        pool = [x for nn in root for x in nn.outputs if nn is not n] + list(root.inputs)  # values of the top-level graph: visible everywhere below it
+        if n.graph is not root:
+            pool = _unshadowed(m, pool) if root is m.graph else pool
         new = pool[c % len(pool)] if (pool and d % 4) else None
         n.replace_input_with(i, new)
         st.affected = st.affected or annotated_node
@@ -386,6 +416,8 @@ def run_op(st, op):
         return f"resize_inputs({n.name},{b % 4})"
     if k == 8:
         old = list(n.outputs)
+        if st.root_of(n) is not m.graph and any(o.is_graph_output() for o in old):
+            return "noop"  # a function whose declared output is no longer produced cannot be written as a FunctionProto
         try:
             n.resize_outputs(b % 4)
         except ValueError:
@@ -401,9 +433,10 @@ def run_op(st, op):
         return f"resize_outputs({n.name},{b % 4})"
     if k == 9 and n.outputs:  # replace all uses
         v = n.outputs[b % len(n.outputs)]
-        pool = [x for nn in m.graph for x in nn.outputs if x is not v] + list(m.graph.inputs)
+        root = st.root_of(n)
+        pool = [x for nn in root for x in nn.outputs if x is not v] + list(root.inputs)
         users = [u for u, _ in v.uses()]
-        if any(u.graph is not m.graph for u in users):
+        if root is m.graph and any(u.graph is not m.graph for u in users):
             pool = _unshadowed(m, pool)
         if not pool:
             return "noop"
